@@ -179,7 +179,7 @@ Proof.
   intros Hkt l1 l2 seed row orc [c1 [-> G1]] [c2 [-> G2]]. unfold nbr_row, grow_rel.
   destruct (neighborhood N s row orc) as [[|i idx]|]; [| |exact I].
   - destruct p.
-    + destruct (draw_z RG (create RG seed) (RqChoice (length (n_arms s)) (n_nnprob s))) as [v g']. split; [reflexivity|]. split; eexists; eauto.
+    + destruct (negb (nnprob_len_ok s)); [exact I|]. destruct (draw_z RG (create RG seed) (RqChoice (length (n_arms s)) (n_nnprob s))) as [v g']. split; [reflexivity|]. split; eexists; eauto.
     + split; [reflexivity|]. split; eexists; eauto.
   - set (ds := flat_map _ _). set (rs := select (n_rs s) (zero N) (i :: idx)). set (cx := select (n_cx s) [] (i :: idx)).
     unfold lp_fit.
